@@ -239,6 +239,41 @@ formula and its graph arguments, however the option is spelled
         random.seed(values)
 
 
+def comment_marker_from_command_line(argv, default):
+    """Comment marker of the output format requested on a command line
+
+An error in the command line must be reported with the comment marker
+of the requested output format, which is known for sure only after the
+command line has been parsed. This function gives the best guess that
+can be made without parsing the formula and its arguments.
+
+Parameters
+----------
+argv : list(str)
+    the command line, without the program name
+default : str
+    output format when the command line does not tell
+"""
+    scanner = argparse.ArgumentParser(add_help=False)
+    scanner.add_argument('--output', '-o', default='')
+    scanner.add_argument('--output-format', '-of', default=None)
+    scanner.add_argument('--latex', '-l', dest='output_format',
+                         action='store_const', const='latex')
+    markers = {'dimacs': 'c ', 'latex': '% ', 'opb': '* '}
+    fileformat = None
+    try:
+        with open(os.devnull, 'w') as devnull:
+            with redirect_stderr(devnull):
+                args, _ = scanner.parse_known_args(argv)
+        fileformat = args.output_format
+        if fileformat is None and default == 'dimacs':
+            extension = os.path.splitext(args.output)[-1]
+            fileformat = {'.tex': 'latex', '.opb': 'opb'}.get(extension)
+    except SystemExit:
+        pass
+    return markers.get(fileformat, markers[default])
+
+
 def positive_int(value):
     errmsg = "{} was supposed to be a positive integer".format(value)
     try:
